@@ -9,6 +9,8 @@ thorough: additionally EVERY single-site rewrite of every corpus statement, and 
 """
 from __future__ import annotations
 
+import os
+
 import re
 
 from vlib import corpus, observe, rewrite, runner
@@ -49,9 +51,12 @@ def view(sql, dialect):
 def entries():
     if "entries" not in _state:
         out = []
-        for e in corpus.plain():
+        for k, e in enumerate(corpus.plain()):
             if e.get("sqlfluff", True) and "{" not in e["sql"]:
                 out.append((e["sql"], e["dialect"]))
+                # the legacy analyzer is a dialect too ('non-validating'): the test suite's ansi statements that it supports, a seeded third
+                if e.get("sqlparse") and e["dialect"] == "ansi" and (k + _state.get("seed", 1)) % 3 == 0:
+                    out.append((e["sql"], "non-validating"))
         tp = corpus.tpcds()
         if _state.get("quick"):  # the big TPC-DS scripts cost ~1 s per analysis: a seeded tenth of them in the quick tier
             k = _state.get("seed", 1) % 10
@@ -88,7 +93,7 @@ def _prep(idx):
     c = _state.setdefault("prep", {})
     if idx not in c:
         sql, dialect = entries()[idx]
-        sites = rewrite.Sites(sql, dialect)
+        sites = rewrite.Sites(sql, "ansi" if dialect == "non-validating" else dialect)  # token boundaries from the ansi lexer
         base = view(sql, dialect) if sites.ok else None
         c[idx] = (sites, base)
     return c[idx]
@@ -103,7 +108,20 @@ def compare(base, new):
     return None
 
 
+_UNION_ALL_SPLIT = re.compile(r"\bunion(?! all\b)(?:\s|--[^\n]*\n|/\*.*?\*/)+all\b", re.I | re.S)
+_TYPE_NAME_MIXED = re.compile(r"\bas\s+([A-Za-z]+)\s*\(", re.I)
+
+
 def classify(case, detail):
+    """two defects of the deprecated sqlparse-based analyzer ('non-validating'); both lose column lineage only"""
+    if case.get("dialect") != "non-validating" or detail.get("what") not in ("pairs differ", "S differ"):
+        return None
+    new = case.get("rewritten", "")
+    if _UNION_ALL_SPLIT.search(new):
+        return "K-sqlparse-union-all-spacing@C07"
+    if detail.get("what") == "pairs differ" and any(not m.islower() for m in _TYPE_NAME_MIXED.findall(new)) \
+            and all(m.islower() for m in _TYPE_NAME_MIXED.findall(case.get("original", ""))):
+        return "K-sqlparse-type-name-case@C07"
     return None
 
 
@@ -120,6 +138,9 @@ def judge(idx, edits, trailer, res, ctx, label):
     if new_sql == sql:
         res.discard("no_change")
         return None
+    if dialect == "non-validating" and any(k == "quote" for k, _, _ in edits):
+        res.discard("quoting_rewrite_not_applied_to_the_legacy_analyzer")
+        return None
     if any(k == "quote" for k, _, _ in edits) and not sites.quoting_preserved(new_sql, edits):
         res.discard("quoted_variant_rejected_or_reread_by_parser")
         return None
@@ -134,6 +155,9 @@ def judge(idx, edits, trailer, res, ctx, label):
     fid = classify(c, d)
     if fid and fid in ctx.active:
         res.known(fid, c)
+        return None
+    if os.environ.get("VERIF_COLLECT"):
+        res.known("UNLISTED | " + dialect + " | " + d.get("what", "") + " | " + ",".join(sorted({k for k, _, _ in edits})), c)
         return None
     return {"kind": "metamorphic", "case": c, "detail": d}
 
